@@ -186,13 +186,13 @@ class TLCResult:
 
 
 def tlc(spec_dir, module, cfg=None, workers=1, args=(), env=None, timeout=1800, xss="256m", xmx="8g",
-        java_props=(), tag=None, coverage=False):
+        java_props=(), tag=None, coverage=False, gc="Parallel"):
     """Run TLC on spec_dir/module.tla with config cfg (default module.cfg)."""
     ensure_java()
     meta = os.path.join(BUILD, "tlcmeta", "%s.%d.%s" % (tag or module, os.getpid(), hashlib.md5(os.urandom(8)).hexdigest()[:6]))
     os.makedirs(meta, exist_ok=True)
     cp = ":".join([JAR, CMJAR, JAVACLS])
-    cmd = ["java", "-XX:+UseParallelGC", "-Xss" + xss, "-Xmx" + xmx,
+    cmd = ["java", "-XX:+Use%sGC" % gc] + (["-Xms128m"] if gc == "Serial" else []) + ["-Xss" + xss, "-Xmx" + xmx,
            "-Dtlc2.overrides.TLCOverrides=tlc2.overrides.TLCOverrides:VTLCOverrides",
            "-Djava.io.tmpdir=" + meta]
     cmd += ["-D" + p for p in java_props]
@@ -247,7 +247,10 @@ def validate_file(spec_dir, module, cfg, trace_path, timeout=1200, xss="512m", e
     e = {"TRACE": trace_path}
     if env:
         e.update(env)
-    res = tlc(spec_dir, module, cfg, workers=1, env=e, timeout=timeout, xss=xss, tag="tv")
+    # one worker, many JVMs side by side (one per shard): the serial collector with a small initial heap keeps each of them at the
+    # size of its live data (the parallel collector grew every one of them to 3.5 GB whatever the trace)
+    res = tlc(spec_dir, module, cfg, workers=1, env=e, timeout=timeout, xss=xss, tag="tv", gc="Serial", xmx=os.environ.get("VERIF_TV_XMX", "6g"),
+              java_props=())
     for m in re.finditer(r'<<"IMPLDRIFT", (\d+)>>', res.out):
         DRIFT.append((module, int(m.group(1))))
     if res.rc == 0 and not res.error and "Model checking completed. No error has been found" in res.out:
